@@ -10,10 +10,13 @@ Proved here in full for the minimal backend's routine (`non_arkworks_sqrt_ratio_
 generated ones), and in full for the table-driven routine of the arkworks backend (`ark_contract`: with
 g = ζ^M of exact order 2^47, x5 = (num/den)^M = g^e; every one of the six table lookups hits, because the key is
 g^(m·2^39) for the invariant (e + t) ≡ 0 mod 2^b; the flag is the parity of e; the product squares to num/den or
-ζ·num/den).  In particular neither routine can panic.
+ζ·num/den).  In particular neither routine can panic.  The generic field square roots (arkworks' Tonelli–Shanks
+for Fq and Fp, the 3-mod-4 shortcut for Fr, driven by the translated `SQRT_PRECOMP` constants) and the Legendre symbol
+are shown to agree with Euler's criterion (`fq_sqrt_spec`, `fp_sqrt_spec`, `fr_sqrt_spec`, `legendre_euler`).
 -/
 import Decaf.Lemmas.TonelliShanks
 import Decaf.Lemmas.Sarkar
+import Decaf.Lemmas.GenericSqrt
 
 namespace C09
 open Model
@@ -80,6 +83,69 @@ theorem legendre_euler {a : ℕ} (ha : a < q) (ha0 : a ≠ 0) :
       apply (pow_half_eq_one_iff haq).mp
       rw [← hc, h, Nat.cast_one]
     simp [this, hs]
+
+/-! ### the generic field square roots (arkworks' `Field::sqrt` driven by the repository's `SQRT_PRECOMP`) -/
+
+theorem cast_pred_self (m : ℕ) (hm : 0 < m) : ((m - 1 : ℕ) : ZMod m) = -1 := by
+  rw [Nat.cast_sub hm, Nat.cast_one, ZMod.natCast_self, zero_sub]
+
+def fqTS := tsParams Gen.fields_fq_arkworks.Field_Fq.SQRT_PRECOMP
+def fpTS := tsParams Gen.fields_fp_arkworks.Field_Fp.SQRT_PRECOMP
+
+theorem fqSqrt_eq (a : ℕ) : fqSqrt a = sqrtTS q fqTS.1 (fqLit fqTS.2.1) fqTS.2.2 a := rfl
+theorem fpSqrt_eq (a : ℕ) : fpSqrt a = sqrtTS p fpTS.1 (fpLit fpTS.2.1) fpTS.2.2 a := rfl
+
+/-- what the translated constants have to satisfy (kernel evaluation): two-adicity, trace exponent, a 2^s-th root of -1 -/
+theorem fq_ts_facts : 1 ≤ fqTS.1 ∧ q - 1 = 2 ^ fqTS.1 * (2 * Lit.ofLimbs 64 fqTS.2.2 + 1) ∧ (∀ l ∈ fqTS.2.2, l < 2 ^ 64) ∧
+    fqLit fqTS.2.1 < q ∧ powMod (fqLit fqTS.2.1) (2 ^ (fqTS.1 - 1)) q = q - 1 ∧ 2 < q := by decide +kernel
+theorem fp_ts_facts : 1 ≤ fpTS.1 ∧ p - 1 = 2 ^ fpTS.1 * (2 * Lit.ofLimbs 64 fpTS.2.2 + 1) ∧ (∀ l ∈ fpTS.2.2, l < 2 ^ 64) ∧
+    fpLit fpTS.2.1 < p ∧ powMod (fpLit fpTS.2.1) (2 ^ (fpTS.1 - 1)) p = p - 1 ∧ 2 < p := by decide +kernel
+
+/-- **Fq::sqrt agrees with Euler's criterion**: a root of every square, `None` for every non-square, and the modelled
+loops finish within their fuel -/
+theorem fq_sqrt_spec {a : ℕ} (ha : a < q) :
+    (IsSquare (a : Fq) → ∃ x, fqSqrt a = some (some x) ∧ x < q ∧ (x : Fq) ^ 2 = (a : Fq)) ∧
+    (¬ IsSquare (a : Fq) → fqSqrt a = some none) := by
+  obtain ⟨h1, h2, h3, h4, h5, h6⟩ := fq_ts_facts
+  rw [fqSqrt_eq]
+  refine sqrtTS_spec h6 _ _ _ _ h1 h2 h3 rfl h4 ?_ ha
+  have := congrArg (Nat.cast : ℕ → Fq) h5
+  rwa [cast_powMod, cast_pred_self q (by omega)] at this
+
+theorem fp_sqrt_spec {a : ℕ} (ha : a < p) :
+    (IsSquare (a : ZMod p) → ∃ x, fpSqrt a = some (some x) ∧ x < p ∧ (x : ZMod p) ^ 2 = (a : ZMod p)) ∧
+    (¬ IsSquare (a : ZMod p) → fpSqrt a = some none) := by
+  obtain ⟨h1, h2, h3, h4, h5, h6⟩ := fp_ts_facts
+  rw [fpSqrt_eq]
+  refine sqrtTS_spec h6 _ _ _ _ h1 h2 h3 rfl h4 ?_ ha
+  have := congrArg (Nat.cast : ℕ → ZMod p) h5
+  rwa [cast_powMod, cast_pred_self p (by omega)] at this
+
+def frExp : List ℕ := match Gen.fields_fr_arkworks.Field_Fr.SQRT_PRECOMP with | .struct [e] => e.nats | _ => []
+theorem frSqrt_eq (a : ℕ) : frSqrt a = sqrt3Mod4 r frExp a := rfl
+theorem fr_exp_facts : (∀ l ∈ frExp, l < 2 ^ 64) ∧ 4 * Lit.ofLimbs 64 frExp = r + 1 ∧ 2 < r := by decide +kernel
+
+/-- **Fr::sqrt (the p ≡ 3 mod 4 shortcut) agrees with Euler's criterion** -/
+theorem fr_sqrt_spec {a : ℕ} (ha : a < r) :
+    (IsSquare (a : ZMod r) → ∃ x, frSqrt a = some x ∧ x < r ∧ (x : ZMod r) ^ 2 = (a : ZMod r)) ∧
+    (¬ IsSquare (a : ZMod r) → frSqrt a = none) := by
+  obtain ⟨h1, h2, h3⟩ := fr_exp_facts
+  rw [frSqrt_eq]
+  exact sqrt3Mod4_spec h3 frExp h1 h2 ha
+
+/-- the Legendre symbol of all three fields agrees with Euler's criterion -/
+theorem legendre_facts :
+    (∀ l ∈ Gen.fields_fq.Fq.MODULUS_MINUS_ONE_DIV_TWO_LIMBS.nats, l < 2 ^ 64) ∧ Lit.ofLimbs 64 Gen.fields_fq.Fq.MODULUS_MINUS_ONE_DIV_TWO_LIMBS.nats = (q - 1) / 2 ∧
+    (∀ l ∈ Gen.fields_fr.Fr.MODULUS_MINUS_ONE_DIV_TWO_LIMBS.nats, l < 2 ^ 64) ∧ Lit.ofLimbs 64 Gen.fields_fr.Fr.MODULUS_MINUS_ONE_DIV_TWO_LIMBS.nats = (r - 1) / 2 ∧
+    (∀ l ∈ Gen.fields_fp.Fp.MODULUS_MINUS_ONE_DIV_TWO_LIMBS.nats, l < 2 ^ 64) ∧ Lit.ofLimbs 64 Gen.fields_fp.Fp.MODULUS_MINUS_ONE_DIV_TWO_LIMBS.nats = (p - 1) / 2 ∧
+    2 < q ∧ 2 < r ∧ 2 < p := by decide +kernel
+
+theorem legendre_all (a : ℕ) :
+    (a < q → legendre q Gen.fields_fq.Fq.MODULUS_MINUS_ONE_DIV_TWO_LIMBS.nats a = if a = 0 then 0 else if IsSquare (a : ZMod q) then 1 else 2) ∧
+    (a < r → legendre r Gen.fields_fr.Fr.MODULUS_MINUS_ONE_DIV_TWO_LIMBS.nats a = if a = 0 then 0 else if IsSquare (a : ZMod r) then 1 else 2) ∧
+    (a < p → legendre p Gen.fields_fp.Fp.MODULUS_MINUS_ONE_DIV_TWO_LIMBS.nats a = if a = 0 then 0 else if IsSquare (a : ZMod p) then 1 else 2) := by
+  obtain ⟨a1, a2, b1, b2, c1, c2, hq, hr, hp⟩ := legendre_facts
+  exact ⟨fun h => legendre_spec hq _ a1 a2 h, fun h => legendre_spec hr _ b1 b2 h, fun h => legendre_spec hp _ c1 c2 h⟩
 
 /-- non-vacuity: concrete inputs in each of the four cases, both routines (kernel evaluation) -/
 example : sqrtRatioMin 0 5 = some (true, 0) ∧ sqrtRatioMin 5 0 = some (false, 0) ∧
